@@ -71,4 +71,24 @@ theorem rebase_is_subarea_coordinate (a b : C10.Area) (ys xs : PySlice) (h : C10
       exact this
   · cases h
 
+/-- **an explicit `rows_per_scan` always wins**: the value `DaskEWAResampler._get_rows_per_scan` returns, as translated from
+/repo's current source: the keyword if given (0 standing for "the whole swath is one scan"), else the geolocation's
+`attrs['rows_per_scan']` when the longitudes are a DataArray, else an error -/
+theorem code_rows_per_scan (kw attr : Option Int) (hasXr isDa : Bool) (n : Int) :
+    Gen.ewa_rows_per_scan kw hasXr isDa attr n =
+      (match kw with
+       | some k => some (if k = 0 then n else k)
+       | none => if hasXr && isDa then attr.map (fun a => if a = 0 then n else a) else none) := by
+  cases kw with
+  | some k => by_cases h : k = 0 <;> simp [Gen.ewa_rows_per_scan, h]
+  | none =>
+    cases hasXr <;> cases isDa <;> cases attr <;> simp [Gen.ewa_rows_per_scan]
+    all_goals (rename_i a; by_cases h : a = 0 <;> simp [h])
+
+/-- the row chunking chosen for the inputs is a whole number (≥ 1) of scans -/
+theorem code_chunk_rows_scan_aligned (auto rps : Int) (hr : 0 < rps) :
+    ∃ k : Int, 1 ≤ k ∧ Gen.ewa_chunk_rows auto rps = k * rps := by
+  refine ⟨Gen.pyMaxI (pyFloor (((auto : Int) : Rat) / ((rps : Int) : Rat))) 1, ?_, rfl⟩
+  simp only [Gen.pyMaxI]; split <;> omega
+
 end PyresampleModel.Tie
